@@ -130,8 +130,8 @@ def main():
     for t in list(gl.values()) + list(zd.values()) + list(cp.values()):
         assert all(is_scalar(r) for r in t), t
     assert all(is_scalar(r) for r in list(fn) + list(cp))
-    assert all(len(v) >= 2 for v in cp.values()), "a compatibility expansion of length < 2"
-    assert len(set(map(tuple, cp.values()))) == len(cp), "two characters share an expansion"
+    # (defects of the library's table are not this script's to judge: expansions shorter than two
+    # characters or shared by two characters are reported by TLC, MC_AGL!CompatCheck)
     uform = re.compile(r"^u[0-9A-F]{4,}$")
     assert not any(uform.match(n) for n in fn.values()), "an AGLFN name has the u-form"
 
